@@ -136,10 +136,13 @@ func c09Server(c *eng.Ctx, d *dbInfo) {
 	p := c.P
 	n := 0
 	for _, f := range p.PkgFuncs("server") {
-		if f.Parent() == nil || !passedToServeJSON(f) || len(f.Params) < 2 || !eng.IsNamed(f.Params[0].Type(), "types/api", "GetRequest") {
+		if !passedToServeJSON(f) {
 			continue
 		}
-		reqP, idP := f.Params[0], f.Params[1]
+		reqP, idP := handlerParams(f)
+		if reqP == nil || !eng.IsNamed(reqP.Type(), "types/api", "GetRequest") {
+			continue
+		}
 		reqField := func(v ssa.Value, name string) bool {
 			fr, base, isF := eng.LoadedField(v)
 			return isF && fr.Is("types/api", "GetRequest", name) && (eng.Origin(base) == ssa.Value(reqP) || isParam(base, reqP))
